@@ -17,24 +17,17 @@ def Op.target : Op → List Nat
   | .pop s _ | .remove s _ | .clear s | .drop s _ | .flatten s | .listCopy s => [s]
   | _ => []
 
-/-- an extended-slice assignment (`k ∉ {0, 1}`) stores as many units as it addresses -/
-def Op.sizeOk (st : TState) : Op → Prop
-  | .setSliceExt s i j k us =>
-    k ≠ 0 → k ≠ 1 → us.length = (slicePositions (st.children s).length i j k).length
-  | _ => True
-
 /-- Side condition under which the invariant is preserved: the edited sequence exists; the inserted units exist, are
 pairwise distinct and each of them is **not listed anywhere at that moment, or is one of the units which this very
 item / slice assignment replaces** (`Op.replaced`: in-place reordering such as `l[:] = reversed(l)`,
 `l[1:3] = [c, x]` with `c` in the range, `l[::2] = …` rotations; for every other operation `Op.replaced = []`);
-an extended-slice assignment has matching sizes; a flattened sequence does not contain itself.
-The excluded points are real: see `C13_counterexample` (a unit adopted while still listed elsewhere, F10) and
-`C13_ext_size_counterexample` (size mismatch of an extended-slice assignment). -/
+a flattened sequence does not contain itself.  (An extended-slice assignment of another size needs no
+condition: it raises ValueError and changes nothing, see `setSliceExt_size_mismatch_noop`.)
+The excluded point is real: see `C13_counterexample` (a unit adopted while still listed elsewhere, F10). -/
 def Valid (st : TState) (op : Op) : Prop :=
   (∀ s ∈ op.target, s < st.n) ∧
   (∀ u ∈ op.inserted, (st.parent u = none ∨ u ∈ op.replaced st) ∧ u < st.n) ∧
   op.inserted.Nodup ∧
-  op.sizeOk st ∧
   (∀ s, op = .flatten s → st.parent s ≠ some s)
 
 theorem inv_init : Inv init := by
@@ -42,7 +35,7 @@ theorem inv_init : Inv init := by
 
 /-- every operation of the list/sequence API preserves the tree invariant -/
 theorem inv_step (st : TState) (op : Op) (h : Inv st) (hv : Valid st op) : Inv (step st op).1 := by
-  obtain ⟨ht, hi, hd, hz, hf⟩ := hv
+  obtain ⟨ht, hi, hd, hf⟩ := hv
   have hnone : op.replaced st = [] → ∀ u ∈ op.inserted, st.parent u = none := by
     intro he u hu; have := (hi u hu).1; rw [he] at this; simpa using this
   cases op with
@@ -70,7 +63,7 @@ theorem inv_step (st : TState) (op : Op) (h : Inv st) (hv : Valid st op) : Inv (
       (fun u hu => (hi u hu).2)
   | setSliceExt s i j k us =>
     exact setSliceExt_inv st s i j k us h (ht s (by simp [Op.target])) (fun u hu => (hi u hu).1) hd
-      (fun u hu => (hi u hu).2) hz
+      (fun u hu => (hi u hu).2)
   | delSliceExt s i j k => exact delSliceExt_inv st s i j k h (ht s (by simp [Op.target]))
   | delItem s i => exact delItem_inv st s i h (ht s (by simp [Op.target]))
   | delSlice s i j => exact delSlice_inv st s i j h (ht s (by simp [Op.target]))
@@ -236,16 +229,18 @@ theorem C13_counterexample : ¬ C13_full := by
   have := (h [.newUnit 0 0, .construct [0] 0, .construct [0] 1]).mem_iff 1 0
   simp [run, step, construct, alloc, setParents, setChildren, init] at this
 
-/-- The size condition `Op.sizeOk` cannot be dropped: `l[::2] = [x]` on a list of three units raises ValueError
-(sizes 1 ≠ 2) AFTER the two addressed units have been orphaned - they stay listed and name no parent.
-Replayed on the implementation: see notes/C13.md (finding "ext-slice-size-mismatch"). -/
-theorem C13_ext_size_counterexample :
-    ¬ Inv (run init [.newUnit 0 0, .newUnit 0 1, .newUnit 0 2, .newUnit 0 3, .construct [0, 1, 2] 0,
-      .setSliceExt 4 none none 2 [3]]) := by
-  intro h
-  have := (h.mem_iff 4 0).1
-  simp [run, step, construct, alloc, setParents, setChildren, setSliceExt, slicePositions, extBounds, extPos,
-    itemsAt, init] at this
+/-- `l = [u0, u1, u2]` in sequence `u4`, `u3` unlisted -/
+def navExampleBase : TState :=
+  run init [.newUnit 0 0, .newUnit 0 1, .newUnit 0 2, .newUnit 0 3, .construct [0, 1, 2] 0]
+
+/-- an extended-slice assignment (`k ∉ {0, 1}`) of another size than it addresses raises ValueError and is a no-op -/
+theorem setSliceExt_size_mismatch_noop (st : TState) (s : Nat) (i j : Option Int) (k : Int) (us : List Nat)
+    (h0 : k ≠ 0) (h1 : k ≠ 1) (hsz : us.length ≠ (slicePositions (st.children s).length i j k).length) :
+    step st (.setSliceExt s i j k us) = (st, .valueError) := by
+  simp [step, setSliceExt, h0, h1, hsz]
+
+example : step navExampleBase (.setSliceExt 4 none none 2 [3]) = (navExampleBase, .valueError) :=
+  setSliceExt_size_mismatch_noop _ _ _ _ _ _ (by decide) (by decide) (by decide)
 
 /-! ### Non-vacuity: a concrete non-trivial history satisfies the hypotheses -/
 
@@ -259,7 +254,7 @@ def exampleOps : List Op :=
    .pop 3 (-1), .insert 3 1 0, .delSliceExt 3 none none (-2), .flatten 3]
 
 example : ValidRun init exampleOps := by
-  simp [exampleOps, ValidRun, Valid, step, Op.target, Op.inserted, Op.replaced, Op.sizeOk, construct, alloc,
+  simp [exampleOps, ValidRun, Valid, step, Op.target, Op.inserted, Op.replaced, construct, alloc,
     setParents, setChildren, setItem, setSlice, setSliceExt, delSliceExt, append, pop, insert, normIdx, clampIdx,
     sliceBounds, bySlice, slicePositions, extBounds, extPos, itemsAt, replaceAt, dropAt, List.idxOf_cons, init]
 
